@@ -14,7 +14,10 @@ from rules.search import r10_2
 from rules.search import r03_1
 from rules.utilfn import r04_8
 from rules.utilfn import r06_8
-RULES = [('R04.5r', r04_5_reader), ('R04.5w', r04_5_writer), ('R05.3', r05_3), ('R15.7', r15_7), ('R15.1', r15_1), ('R15.2', r06_5), ('R15.3', r06_1), ('R15.4', r15_4), ('R15.5', r06_3), ('R15.6', r15_6), ('R10.5', r10_5), ('R10.6', r10_6), ('R10.3', r10_3), ('R10.1', r10_1), ('R04.4', r04_4), ('R12.2', r12_loops), ('R10.2', r10_2), ('R03.1', r03_1), ('R04.8', r04_8), ('R06.8', r06_8)]
+from rules.utilfn import r04_10
+from rules.utilfn import r06_9
+from rules.utilfn import r10_8
+RULES = [('R04.5r', r04_5_reader), ('R04.5w', r04_5_writer), ('R05.3', r05_3), ('R15.7', r15_7), ('R15.1', r15_1), ('R15.2', r06_5), ('R15.3', r06_1), ('R15.4', r15_4), ('R15.5', r06_3), ('R15.6', r15_6), ('R10.5', r10_5), ('R10.6', r10_6), ('R10.3', r10_3), ('R10.1', r10_1), ('R04.4', r04_4), ('R12.2', r12_loops), ('R10.2', r10_2), ('R03.1', r03_1), ('R04.8', r04_8), ('R06.8', r06_8), ('R04.10', r04_10), ('R06.9', r06_9), ('R10.8', r10_8)]
 EXPLANATION = """Decides the premises of a written bounds argument for every raw-pointer read, plus an inventory that forces every unsafe operation to
 be covered by one of them. R15.1 every unsafe operation in non-test code is classified (value-only SIMD / pointer arithmetic / load /
 unchecked index / call of a local unsafe fn); an unclassified operation, or a pointer/load/unchecked operation in a function that no
